@@ -225,6 +225,29 @@ def r17_10(chk, P):
             rn = F.ex[F.strip_casts(c[0])] if c else None
             while rn is not None and rn['k'] == 'un' and rn['op'] in ('+',):
                 rn = F.ex[F.strip_casts(rn['c'][0])]
+            if rn is not None and rn['k'] == 'ref' and rn['decl'].get('kind') == 'var':
+                # single exit through a result local: the sites are the places where a parameter is put into it
+                vid = rn['decl']['id']
+                for n_, nd_ in F.ex.items():
+                    src = None
+                    if nd_['k'] == 'assign' and nd_['op'] == '=' and n_ in F.pos:
+                        l_ = F.ex[F.strip_casts(nd_['c'][0])]
+                        if l_['k'] == 'ref' and l_['decl'].get('id') == vid:
+                            src = nd_['c'][1]
+                    elif nd_['k'] == 'decl' and n_ in F.pos:
+                        for v_ in nd_['vars']:
+                            if v_.get('id') == vid and v_.get('init'):
+                                src = v_['init']
+                    if src is None:
+                        continue
+                    sn = F.ex[F.strip_casts(src)]
+                    if sn['k'] != 'ref' or sn['decl'].get('id') not in pids:
+                        tgt = None
+                        break
+                    tgt[n_] = sn['decl']['id']
+                if tgt is None:
+                    break
+                continue
             if rn is None or rn['k'] != 'ref' or rn['decl'].get('id') not in pids:
                 tgt = None
                 break
